@@ -1987,6 +1987,16 @@ _bounded_only("C06", "dataiter/vector.py::Vector[every public non-in-place metho
 _bounded_only("C02", "dataiter/data_frame.py::DataFrame.slice[rows: longer index vectors with repeats and disorder]",
               "replay scope for the slice / slice_off contracts: index vectors of 3-4 positions (the deductive contracts cover every length; "
               "this driver supplies concrete counterexamples and the CPython cross-check beyond two positions)")
+_bounded_only("C09", "dataiter/data_frame.py::DataFrame[every public non-in-place method: no mutation, no aliasing]",
+              "the same sweep under C09: its clause 'called with nothing to add (cbind() / rbind() / slice() without arguments) the result holds the "
+              "receiver's columns and values' belongs to the column-manipulation property")
+_bounded_only("C01", "dataiter/data_frame.py::DataFrame.modify[grouped: per-group results of a wrong length are rejected]",
+              "grouped modify goes through split / per-group callbacks / concatenate (not executed symbolically): the broadcast rule per group - one value or "
+              "one per row of the group, anything else rejected - is a bounded run-time contract, every tier")
+for _pp in ("C02", "C05"):
+    _bounded_only(_pp, "dataiter/data_frame.py::DataFrame.unique[one key column: longer frames with many duplicates]",
+                  "replay scope for the unique / join contracts beyond three rows (the deductive contracts cover every length; a sort-based shortcut "
+                  "that is not stable shows from four rows on, an unstable argsort beyond ~16)")
 _bounded_only("C05", "dataiter/data_frame.py::DataFrame.full_join[mixed key list: a plain name before a (left, right) pair]",
               "full_join is a composite outside the deductive contracts; this driver covers its key-renaming loop")
 
